@@ -49,6 +49,7 @@ type graphResult struct {
 	Ms        int64    `json:"ms"`
 	Detail    string   `json:"detail"`
 	Where     string   `json:"where"` // innermost pdfcpu function at the time of a hang / crash
+	Stack     []string `json:"stack"` // pdfcpu frames at that time, innermost first
 }
 
 func graphPDF(c graphCase) []byte {
@@ -242,6 +243,23 @@ func culprit(trace string) string {
 	return "unknown"
 }
 
+// frames lists the pdfcpu functions (innermost first) on the stack of the goroutine that executed the case.
+func frames(trace string) []string {
+	out := []string{}
+	for _, g := range strings.Split(trace, "\n\n") {
+		if !strings.Contains(g, "main.bmRobustChild") {
+			continue
+		}
+		for _, m := range pdfcpuFrame.FindAllStringSubmatch(g, -1) {
+			out = append(out, filepath.Base(m[1])+"."+m[2])
+			if len(out) >= 14 {
+				break
+			}
+		}
+	}
+	return out
+}
+
 // bmRobust drives the children and writes one result per case.  A case is a hang when the child burns more than
 // cpuBudget of CPU time inside one call (immune to machine load) or does not report for wallLimit (blocked).
 func bmRobust(in, out string, workers int, cpuBudget, wallLimit time.Duration) {
@@ -346,7 +364,7 @@ func bmRobust(in, out string, workers int, cpuBudget, wallLimit time.Duration) {
 				case hang != "":
 					if cur < len(cases) {
 						results[cur] = &graphResult{Idx: cur, Case: cases[cur], Outcome: "hang", Op: op, Titles: []string{}, Listed: []string{}, ReadItems: []string{},
-							Detail: hang, Where: culprit(stderr.String())}
+							Detail: hang, Where: culprit(stderr.String()), Stack: frames(stderr.String())}
 					}
 					restart = cur + workers
 				case err != nil && cur < len(cases) && results[cur] == nil && op != "start":
@@ -356,7 +374,7 @@ func bmRobust(in, out string, workers int, cpuBudget, wallLimit time.Duration) {
 						first = first[:i]
 					}
 					results[cur] = &graphResult{Idx: cur, Case: cases[cur], Outcome: "crash", Op: op, Titles: []string{}, Listed: []string{}, ReadItems: []string{},
-						Detail: err.Error() + ": " + first, Where: culprit(tr)}
+						Detail: err.Error() + ": " + first, Where: culprit(tr), Stack: frames(tr)}
 					restart = cur + workers
 				case err != nil:
 					h.Die("robust child failed outside a case: %v %s", err, stderr.String())
